@@ -211,6 +211,7 @@ pub struct AdmSwarm {
     pub w_withdraw_fees: u32,
     pub w_account_admin: u32,
     pub w_emi: u32,
+    pub w_reduce_only_drill: u32,
 }
 
 impl AdmSwarm {
@@ -240,6 +241,7 @@ impl AdmSwarm {
             w_withdraw_fees: 0,
             w_account_admin: 0,
             w_emi: 0,
+            w_reduce_only_drill: 0,
         }
     }
     pub fn adm(rng: &mut Rng) -> Self {
@@ -269,6 +271,7 @@ impl AdmSwarm {
             w_withdraw_fees: r(0, 4),
             w_account_admin: r(1, 5),
             w_emi: r(0, 4),
+            w_reduce_only_drill: r(0, 4),
         }
     }
     pub fn emi(rng: &mut Rng) -> Self {
@@ -320,6 +323,7 @@ impl AdmSwarm {
             self.w_withdraw_fees,
             self.w_account_admin,
             self.w_emi,
+            self.w_reduce_only_drill,
         ]
     }
     pub fn total(&self) -> u32 {
@@ -609,6 +613,39 @@ pub fn step_adm(sim: &mut Sim, ctx: &mut Ctx, adm: &AdmSwarm) -> Option<Tx> {
             }
         }
         23 => return step_emi(sim, ctx),
+        24 => {
+            // reduce-only drill: a bank somebody holds as collateral goes reduce-only, then that
+            // holder looks for the edge of their borrowing power
+            let mut holders: Vec<(usize, Pubkey, Pubkey)> = Vec::new();
+            for (ui, u) in ctx.world.users.iter().enumerate() {
+                for (g2, ma) in &u.maccounts {
+                    if *g2 != gi {
+                        continue;
+                    }
+                    if let Some(acc) = model::account_of(&sim.store, ma) {
+                        for bal in active_balances(&acc) {
+                            if i80(bal.asset_shares) >= I80F48::ONE {
+                                holders.push((ui, *ma, bal.bank_pk));
+                            }
+                        }
+                    }
+                }
+            }
+            if holders.is_empty() {
+                return None;
+            }
+            let (ui, ma, bk) = *ctx.rng.pick(&holders);
+            sim.stats.fault("drill_reduce_only_collateral");
+            let opt = BankConfigOpt {
+                operational_state: Some(BankOperationalState::ReduceOnly),
+                ..Default::default()
+            };
+            sim.apply(Event::Tx(Tx::one("group_admin", ix::configure_bank(g.key, g.admins.admin, bk, opt))));
+            if sim.violated() && sim.stop_on_violation {
+                return None;
+            }
+            return borrow_boundary_for(sim, ctx, ui, gi, ma);
+        }
         _ => {
             // account-level admin-ish user actions: transfer, close, frozen-account operation by admin
             let us: Vec<(usize, Pubkey)> = ctx
